@@ -7,14 +7,16 @@
      parse_equality, parse_comparison (with the desugaring  x <= y  ~>  !(x > y),
      x >= y  ~>  !(x < y): both operands occur once), parse_or, parse_xor, parse_and, parse_shift,
      parse_term, parse_factor, parse_cast, parse_type (scalar and named types, tuple types, array
-     types with a literal or a named size), parse_if_or_match (`if` / `else if` / `else` AND
+     types with a literal, a named or a `const { .. }` size), parse_if_or_match (`if` / `else if` / `else` AND
      `match` with parse_match_clause), parse_pattern (all forms), parse_unary, parse_primary
      (with its postfix loop `[..]` `.0` `.field`), the arms of parse_literal(token, false) (true /
      false, numbers, ranges `a..b`, `(e)`, `()`, tuples, array literals `[a, b]`, `[e; n]`, `[e; N]`,
      struct literals `S { a: e, b }`, enum literals `E::V`, `E::V(e, ..)`), parse_stmt (`let`, `let mut`, `for`,
      assignments `x.acc = e` and the compound assignments `x.acc op= e` with their DESUGARING
      into `x.acc = x.acc op e`, expression statements with the `;` rules), parse_stmts (the
-     struct-literal flag), parse_stmts_of_block (the loop), parse_block_as_expr.
+     struct-literal flag), parse_stmts_of_block (the loop), parse_block_as_expr; the TOP LEVEL:
+     parse (the item loop with `pub`), parse_const_def with parse_const_expr, parse_struct_def,
+     parse_enum_def, parse_variant, parse_fn_def, parse_params, parse_param.
    The parser state is the remaining token list and the flag [struct_literals_allowed]; the
    flag is threaded as STATE and saved / cleared / restored exactly where the Rust code does
    it (around the condition of an `if`, the scrutinee of a `match`, the collection of a `for`;
@@ -33,8 +35,11 @@
      the statements in a Block: this keeps the recursion through the single parameter [pe];
    - a range whose two suffixes differ (`1u8..2u16`): the Rust code pushes an error and goes on
      with the first suffix; the final result is `Err`, here [PErr] at once;
-   - OUTSIDE THE MODEL ([POutside OType]): array types whose size is `const { .. }`.  (The other
-     constructors of [outside] are no longer produced.)
+   - nothing of the grammar is outside the model any more: [POutside] is no longer produced (the
+     type [outside] is kept for the interfaces that mention it);
+   - the HashMaps of a Program (const_defs, struct_defs, enum_defs, fn_defs) are association lists
+     in source order, a later definition of a name REPLACING an earlier one ([map_insert]);
+     `const_deps` (empty after parsing) is not modelled.
    Recursion: explicit fuel, one unit per nesting level of parse_expr and per loop iteration;
    [PNoFuel] is never a Rust behaviour. *)
 From GV Require Import Base.Util Front.Scan.
@@ -50,13 +55,26 @@ Inductive bin_op :=
 | BAdd | BSub | BMul | BDiv | BMod | BBitAnd | BBitXor | BBitOr | BGreaterThan | BLessThan
 | BEq | BNotEq | BShiftLeft | BShiftRight | BShortCircuitAnd | BShortCircuitOr.
 
+(* ConstExprEnum: what parse_const_expr accepts *)
+Inductive uconst :=
+| CTrue | CFalse
+| CNumUnsigned (n : N) (t : unsigned_num_type)
+| CNumSigned (z : Z) (t : signed_num_type)
+| CExternalValue (party identifier : list N)      (* `PARTY::NAME` *)
+| CIdent (s : list N)                             (* ConstExprIdent *)
+| CMax (args : list uconst)
+| CMin (args : list uconst)
+| CAdd (l r : uconst)
+| CSub (l r : uconst).
+
 (* the types parse_type produces *)
 Inductive utype :=
 | UTBool | UTUnsigned (t : unsigned_num_type) | UTSigned (t : signed_num_type)
 | UTNamed (s : list N)      (* Type::UntypedTopLevelDefinition *)
 | UTTuple (ts : list utype)
 | UTArray (t : utype) (n : N)
-| UTArrayConst (t : utype) (c : list N).
+| UTArrayConst (t : utype) (c : list N)
+| UTArrayConstExpr (t : utype) (c : uconst).
 
 (* PatternEnum *)
 Inductive upattern :=
@@ -203,21 +221,49 @@ Fixpoint strict_comma_loop {A} (item : pstate -> pres A) (n : nat) (acc : list A
       end
   end.
 
-(* fn parse_type *)
-Fixpoint parse_type (n : nat) (s : pstate) : pres utype :=
+Definition s_max : list N := Eval vm_compute in codes "max".
+Definition s_min : list N := Eval vm_compute in codes "min".
+
+(* fn parse_const_expr: the expressions that are constant expressions ([None]: InvalidConstExpr) *)
+Fixpoint const_of_expr (e : uexpr) : option uconst :=
+  let all := fix all (es : list uexpr) : option (list uconst) :=
+    match es with
+    | [] => Some []
+    | y :: r => match const_of_expr y, all r with Some c, Some cs => Some (c :: cs) | _, _ => None end
+    end in
+  match e with
+  | UTrue => Some CTrue
+  | UFalse => Some CFalse
+  | UNumUnsigned n t => Some (CNumUnsigned n t)
+  | UNumSigned z t => Some (CNumSigned z t)
+  | UEnumLiteral party identifier None => Some (CExternalValue party identifier)
+  | UIdentifier identifier => Some (CIdent identifier)
+  | UOp BAdd l r =>
+      match const_of_expr l, const_of_expr r with Some cl, Some cr => Some (CAdd cl cr) | _, _ => None end
+  | UOp BSub l r =>
+      match const_of_expr l, const_of_expr r with Some cl, Some cr => Some (CSub cl cr) | _, _ => None end
+  | UFnCall f args =>
+      if list_eqb f s_max then match all args with Some cs => Some (CMax cs) | None => None end
+      else if list_eqb f s_min then match all args with Some cs => Some (CMin cs) | None => None end
+      else None
+  | _ => None
+  end.
+
+(* fn parse_type; [pe]: parse_expr (for the size `const { .. }` of an array type) *)
+Fixpoint parse_type (pe : pstate -> pres uexpr) (n : nat) (s : pstate) : pres utype :=
   match n with
   | O => PNoFuel
   | S n' =>
       match next_matches TLeftParen s with
       | Some s1 =>
           bindp (if negb (peek TRightParen s1)
-                 then bindp (parse_type n' s1) (fun ty s2 => strict_comma_loop (parse_type n') n' [ty] s2)
+                 then bindp (parse_type pe n' s1) (fun ty s2 => strict_comma_loop (parse_type pe n') n' [ty] s2)
                  else POk [] s1)
             (fun fields s2 => expect TRightParen s2 (fun s3 => POk (UTTuple fields) s3))
       | None =>
           match next_matches TLeftBracket s with
           | Some s1 =>
-              bindp (parse_type n' s1) (fun ty s2 =>
+              bindp (parse_type pe n' s1) (fun ty s2 =>
                 expect TSemicolon s2 (fun s3 =>
                   match toks s3 with
                   | Token (TUnsignedNum k UnspecifiedU) _ :: r
@@ -225,7 +271,15 @@ Fixpoint parse_type (n : nat) (s : pstate) : pres utype :=
                       expect TRightBracket (PState r (sla s3)) (fun s4 => POk (UTArray ty k) s4)
                   | Token (TIdentifier c) _ :: r =>
                       expect TRightBracket (PState r (sla s3)) (fun s4 => POk (UTArrayConst ty c) s4)
-                  | Token TKeywordConst _ :: _ => POutside OType
+                  | Token TKeywordConst _ :: r =>
+                      expect TLeftBrace (PState r (sla s3)) (fun s4 =>
+                        bindp (pe s4) (fun e s5 =>
+                          match const_of_expr e with
+                          | Some c =>
+                              expect TRightBrace s5 (fun s6 =>
+                                expect TRightBracket s6 (fun s7 => POk (UTArrayConstExpr ty c) s7))
+                          | None => PErr
+                          end))
                   | _ => PErr
                   end))
           | None => expect_identifier s (fun id s1 => POk (type_of_name id) s1)
@@ -644,7 +698,7 @@ Section WithExpr.
   (* `: <type>`? *)
   Definition opt_type {A} (n : nat) (s : pstate) (k : option utype -> pstate -> pres A) : pres A :=
     match next_matches TColon s with
-    | Some s1 => bindp (parse_type n s1) (fun ty s2 => k (Some ty) s2)
+    | Some s1 => bindp (parse_type pe n s1) (fun ty s2 => k (Some ty) s2)
     | None => k None s
     end.
 
@@ -818,7 +872,7 @@ Section WithExpr.
     | O => PNoFuel
     | S n' =>
         match next_matches TKeywordAs s with
-        | Some s1 => bindp (parse_type n' s1) (fun ty s2 => cast_loop n' (UCast ty x) s2)
+        | Some s1 => bindp (parse_type pe n' s1) (fun ty s2 => cast_loop n' (UCast ty x) s2)
         | None => POk x s
         end
     end.
@@ -877,3 +931,147 @@ Definition parse_block_text (fuel : nat) (ts : list token) : pres (list ustmt) :
    printed inputs of ParseExprProofs.v ([parse_show_min] gives some fuel); for other inputs it
    is a default for the extracted parser. *)
 Definition fuel_for_tokens (ts : list token) : nat := S (S (List.length ts)).
+
+(* ------------------------------------------------------------------ top-level items *)
+
+Inductive uvariant :=
+| VUnit (name : list N)
+| VTuple (name : list N) (fields : list utype).
+
+(* ParamDef { mutability, name, ty } *)
+Record uparam := UParam { p_mutable : bool; p_name : list N; p_ty : utype }.
+
+(* FnDef { is_pub, identifier, ty, params, body } *)
+Record ufndef := UFnDef {
+  f_is_pub : bool; f_identifier : list N; f_ty : utype; f_params : list uparam; f_body : list ustmt }.
+
+(* ConstDef { ty, value } *)
+Record uconstdef := UConstDef { c_ty : utype; c_value : uconst }.
+
+(* Program { const_defs, struct_defs, enum_defs, fn_defs }: the four HashMaps, as association
+   lists; StructDef { fields } (sorted by name), EnumDef { variants } *)
+Record uprogram := UProgram {
+  up_const_defs : list (list N * uconstdef);
+  up_struct_defs : list (list N * list (list N * utype));
+  up_enum_defs : list (list N * list uvariant);
+  up_fn_defs : list (list N * ufndef) }.
+
+(* HashMap::insert *)
+Definition map_insert {A} (k : list N) (v : A) (m : list (list N * A)) : list (list N * A) :=
+  (filter (fun kv => negb (list_eqb (fst kv) k)) m ++ [(k, v)])%list.
+
+Section TopLevel.
+  Variable fuel : nat.
+  Let pe := parse_expr_st fuel.
+
+  (* fn parse_const_def (the keyword is consumed) *)
+  Definition parse_const_def (s : pstate) : pres (list N * uconstdef) :=
+    expect_identifier s (fun identifier s1 =>
+      expect TColon s1 (fun s2 =>
+        bindp (parse_type pe fuel s2) (fun ty s3 =>
+          expect TEq s3 (fun s4 =>
+            bindp (pe s4) (fun e s5 =>
+              match const_of_expr e with
+              | Some value => expect TSemicolon s5 (fun s6 => POk (identifier, UConstDef ty value) s6)
+              | None => PErr
+              end))))).
+
+  (* `name: type` *)
+  Definition parse_field_def (s : pstate) : pres (list N * utype) :=
+    expect_identifier s (fun name s1 =>
+      expect TColon s1 (fun s2 => bindp (parse_type pe fuel s2) (fun ty s3 => POk (name, ty) s3))).
+
+  (* fn parse_struct_def *)
+  Definition parse_struct_def (s : pstate) : pres (list N * list (list N * utype)) :=
+    expect_identifier s (fun identifier s1 =>
+      expect TLeftBrace s1 (fun s2 =>
+        bindp (if negb (peek TRightBrace s2)
+               then bindp (parse_field_def s2) (fun f s3 => sep_loop parse_field_def TRightBrace fuel [f] s3)
+               else POk [] s2)
+          (fun fields s3 => expect TRightBrace s3 (fun s4 => POk (identifier, sort_fields fields) s4)))).
+
+  (* fn parse_variant *)
+  Definition parse_variant (s : pstate) : pres uvariant :=
+    expect_identifier s (fun variant_name s1 =>
+      match next_matches TLeftParen s1 with
+      | Some s2 =>
+          bindp (match toks s2 with
+                 | Token (TIdentifier _) _ :: _ => bindp (parse_type pe fuel s2) (fun ty s3 => POk [ty] s3)
+                 | _ => POk [] s2
+                 end)
+            (fun first s3 =>
+               bindp (sep_loop (parse_type pe fuel) TRightParen fuel (rev first) s3) (fun fields s4 =>
+                 expect TRightParen s4 (fun s5 => POk (VTuple variant_name fields) s5)))
+      | None => POk (VUnit variant_name) s1
+      end).
+
+  (* fn parse_enum_def *)
+  Definition parse_enum_def (s : pstate) : pres (list N * list uvariant) :=
+    expect_identifier s (fun identifier s1 =>
+      expect TLeftBrace s1 (fun s2 =>
+        bindp (parse_variant s2) (fun v s3 =>
+          bindp (sep_loop parse_variant TRightBrace fuel [v] s3) (fun variants s4 =>
+            expect TRightBrace s4 (fun s5 => POk (identifier, variants) s5))))).
+
+  (* fn parse_param: mut <param>: <type> *)
+  Definition parse_param (s : pstate) : pres uparam :=
+    let (is_mutable, s1) := match next_matches TKeywordMut s with Some s1 => (true, s1) | None => (false, s) end in
+    expect_identifier s1 (fun name s2 =>
+      expect TColon s2 (fun s3 => bindp (parse_type pe fuel s3) (fun ty s4 => POk (UParam is_mutable name ty) s4))).
+
+  (* fn parse_params *)
+  Definition parse_params (s : pstate) : pres (list uparam) :=
+    bindp (parse_param s) (fun p s1 => sep_loop parse_param TRightParen fuel [p] s1).
+
+  (* fn parse_fn_def *)
+  Definition parse_fn_def (is_pub : bool) (s : pstate) : pres ufndef :=
+    expect_identifier s (fun identifier s1 =>
+      expect TLeftParen s1 (fun s2 =>
+        bindp (if negb (peek TRightParen s2) then parse_params s2 else POk [] s2) (fun params s3 =>
+          expect TRightParen s3 (fun s4 =>
+            expect TArrow s4 (fun s5 =>
+              bindp (parse_type pe fuel s5) (fun ty s6 =>
+                expect TLeftBrace s6 (fun s7 =>
+                  bindp (parse_stmts pe fuel s7) (fun body s8 =>
+                    expect TRightBrace s8 (fun s9 =>
+                      POk (UFnDef is_pub identifier ty params body) s9))))))))).
+
+  (* fn parse: `while let Some(token) = self.advance() { match token { .. } }` *)
+  Fixpoint items_loop (n : nat) (is_pub : bool) (prog : uprogram) (s : pstate) : pres uprogram :=
+    match n with
+    | O => PNoFuel
+    | S n' =>
+        match advance s with
+        | None => POk prog s
+        | Some (t, s1) =>
+            match t with
+            | TKeywordPub => if is_pub then PErr else items_loop n' true prog s1
+            | TKeywordConst =>
+                bindp (parse_const_def s1) (fun d s2 =>
+                  items_loop n' false
+                    (UProgram (map_insert (fst d) (snd d) (up_const_defs prog)) (up_struct_defs prog)
+                              (up_enum_defs prog) (up_fn_defs prog)) s2)
+            | TKeywordStruct =>
+                bindp (parse_struct_def s1) (fun d s2 =>
+                  items_loop n' false
+                    (UProgram (up_const_defs prog) (map_insert (fst d) (snd d) (up_struct_defs prog))
+                              (up_enum_defs prog) (up_fn_defs prog)) s2)
+            | TKeywordEnum =>
+                bindp (parse_enum_def s1) (fun d s2 =>
+                  items_loop n' false
+                    (UProgram (up_const_defs prog) (up_struct_defs prog)
+                              (map_insert (fst d) (snd d) (up_enum_defs prog)) (up_fn_defs prog)) s2)
+            | TKeywordFn =>
+                bindp (parse_fn_def is_pub s1) (fun d s2 =>
+                  items_loop n' false
+                    (UProgram (up_const_defs prog) (up_struct_defs prog) (up_enum_defs prog)
+                              (map_insert (f_identifier d) d (up_fn_defs prog))) s2)
+            | _ => PErr          (* InvalidTopLevelDef *)
+            end
+        end
+    end.
+End TopLevel.
+
+(* a whole program text: struct literals allowed (a fresh parser) *)
+Definition parse_program_text (fuel : nat) (ts : list token) : pres uprogram :=
+  items_loop fuel fuel false (UProgram [] [] [] []) (PState ts true).
